@@ -163,6 +163,7 @@ func runStreamProp(c *Ctx, id string) {
 	}
 	if id == "C05" {
 		runC04File(c) // the file backend rewrites the whole file: a save keeps the checkpoints it does not touch
+		runSwissMap(c) // the container of the tracked positions and the dirty set is the function Model/Stream.v takes it for
 	}
 	if id == "C16" {
 		runC16Gauges(c)
